@@ -1,6 +1,6 @@
 (* C12 — macro expansion and inclusion.  Property theorems only. *)
 From Coq Require Import List NArith Bool String Arith.
-From RV Require Import Macro MacroProofs.
+From RV Require Import Macro MacroProofs MacroSubst.
 Import ListNotations.
 Local Open Scope string_scope.
 
@@ -49,6 +49,35 @@ Theorem C12_defines_are_define_lines :
     run paste files (fuel + fuel) entry (defines ++ its) {| ps_macros := []; ps_once := []; ps_out := [] |} = inl r.
 Proof. exact defines_are_define_lines. Qed.
 
+(* ---- text that names no macro is left as it is ---- *)
+Theorem C12_plain_text_unchanged :
+  forall (paste : mtok -> mtok -> option mtok) (defs : list macro) (toks : list mtok),
+    plain defs toks -> apply_macros paste defs toks = XOk toks.
+Proof. exact plain_text_unchanged. Qed.
+
+(* ---- invoking an object-like macro yields its replacement list: every paste function, every macro table, every
+        token list `pre ++ name :: post` whose other tokens name no macro and hold no `##` ---- *)
+Theorem C12_object_macro_is_replaced :
+  forall (paste : mtok -> mtok -> option mtok) (defs : list macro) (mi : nat) (m : macro) (pre post : list mtok),
+    nth_error defs mi = Some m -> m_fn m = false ->
+    (forall j m', j < mi -> nth_error defs j = Some m' -> String.eqb (m_name m) (m_name m') = false) ->
+    plain defs pre -> plain defs post -> plain defs (m_body m) ->
+    apply_macros paste defs (pre ++ MId (m_name m) :: post) = XOk (pre ++ m_body m ++ post).
+Proof. exact object_macro_is_replaced. Qed.
+
+(* ---- invoking a function-like macro yields its replacement list with the (trimmed) arguments substituted for the
+        parameters; an argument may hold parentheses, and commas inside them do not split it ---- *)
+Theorem C12_function_macro_is_substituted :
+  forall (paste : mtok -> mtok -> option mtok) (defs : list macro) (mi : nat) (m : macro)
+         (pre : list mtok) (args : list (list mtok)) (post : list mtok),
+    nth_error defs mi = Some m -> m_fn m = true ->
+    (forall j m', j < mi -> nth_error defs j = Some m' -> String.eqb (m_name m) (m_name m') = false) ->
+    args <> [] -> List.length args = m_params m -> Forall (simple defs) args ->
+    plain defs pre -> plain defs post -> forallb (bodyb defs) (m_body m) = true ->
+    apply_macros paste defs (pre ++ MId (m_name m) :: MLP :: commas args ++ MRP :: post) =
+    XOk (pre ++ subst (m_body m) (map trim args) ++ post).
+Proof. exact function_macro_is_substituted. Qed.
+
 (* ---- non-vacuity ---- *)
 Definition ex_paste (a b : mtok) : option mtok :=
   match a, b with MId x, MId y => Some (MId (x ++ y)) | _, _ => None end.
@@ -78,8 +107,29 @@ Example C12_example_driver :
          ps_out := [MId "y"; MEndl; MLit "1"; MEndl; MLit "1"; MEndl] |}.
 Proof. vm_compute. reflexivity. Qed.
 
+(* #define two(p,q) q - p      #define K ( 4 ) *)
+Definition ex_defs2 : list macro :=
+  [def [MWs; MId "two"; MLP; MId "p"; MComma; MId "q"; MRP; MWs; MId "q"; MWs; MSym "-"; MWs; MId "p"];
+   def [MWs; MId "K"; MWs; MLP; MLit "4"; MRP]].
+Definition ex_args : list (list mtok) := [[MWs; MId "h"; MLP; MId "u"; MComma; MId "v"; MRP]; [MId "w"; MWs]].
+Example C12_substitution_example_hyps :
+  nth_error ex_defs2 0 = Some (def [MWs; MId "two"; MLP; MId "p"; MComma; MId "q"; MRP; MWs; MId "q"; MWs; MSym "-"; MWs; MId "p"]) /\
+  Forall (simple ex_defs2) ex_args /\ forallb (bodyb ex_defs2) (m_body (nth 0 ex_defs2 (def []))) = true /\
+  List.length ex_args = m_params (nth 0 ex_defs2 (def [])).
+Proof. split; [reflexivity|]. split; [repeat constructor|]. split; reflexivity. Qed.
+Example C12_substitution_example :
+  apply_macros (fun _ _ => None) ex_defs2 ([MId "x"; MWs] ++ MId "two" :: MLP :: commas ex_args ++ MRP :: [MSym ";"]) =
+  XOk [MId "x"; MWs; MId "w"; MWs; MSym "-"; MWs; MId "h"; MLP; MId "u"; MComma; MId "v"; MRP; MSym ";"].
+Proof. vm_compute. reflexivity. Qed.
+Example C12_object_example :
+  apply_macros (fun _ _ => None) ex_defs2 [MId "x"; MSym "+"; MId "K"; MSym ";"] =
+  XOk [MId "x"; MSym "+"; MLP; MLit "4"; MRP; MSym ";"].
+Proof. vm_compute. reflexivity. Qed.
 Print Assumptions C12_expansion_terminates.
 Print Assumptions C12_include_is_paste.
 Print Assumptions C12_pragma_once_marks.
 Print Assumptions C12_pragma_once_second_time.
 Print Assumptions C12_defines_are_define_lines.
+Print Assumptions C12_plain_text_unchanged.
+Print Assumptions C12_object_macro_is_replaced.
+Print Assumptions C12_function_macro_is_substituted.
